@@ -577,6 +577,10 @@ func runC09(h *H) {
 		h.DoRisky("conc.sched", p, strconv.Itoa(nT), strings.Join(th, ","), s)
 		h.DoRisky("conc.cache", p, strconv.Itoa(nT), strings.Join(th, ","), s)
 	}
+	// pooled tokenizer stacks: histories that return a stack to the pool twice make two live tokenizers share it
+	for i := 0; i < 20; i++ {
+		h.DoRisky("json.tokpair", hx([]byte([]string{`{"a":[[1,2,`, `[[[`, `[1,2}`}[i%3])), hx(h.genJSONNested()), hx(h.genJSONNested()))
+	}
 	S := 6
 	if h.Thorough() {
 		S = 80
